@@ -1138,4 +1138,86 @@ theorem thermal_out_and_back (f : Key → Rat → Rat → Rat) (tin : Key → Ra
 example : factorSpec (updateComponentTemp ⟨false, [], [((0, 0), 0)]⟩ (0, 0) 100) (0, 0) = .between 0 100 := by
   decide +kernel
 
+
+/-! ### aliased compositions: components sharing one composition cell -/
+
+/-- the factor component `k` receives when the factors `fs` go to components `i, i+1, ...` -/
+def factorAt (i : Nat) (fs : List Rat) (k : Nat) : Rat := if i ≤ k then fs.getD (k - i) 1 else 1
+
+private theorem deref_append_lt (heap : Heap) (v : Rat) (c : Nat) (h : c < heap.length) :
+    deref (heap ++ [v]) c = deref heap c := by
+  simp [deref, List.getD_eq_getElem?_getD, List.getElem?_append_left h]
+
+private theorem deref_append_eq (heap : Heap) (v : Rat) : deref (heap ++ [v]) heap.length = v := by
+  simp [deref, List.getD_eq_getElem?_getD]
+
+private theorem factorAt_cons (i : Nat) (f : Rat) (fs : List Rat) (k : Nat) :
+    factorAt i (f :: fs) k = (if k = i then f else 1) * factorAt (i + 1) fs k := by
+  unfold factorAt
+  by_cases h1 : k = i
+  · subst h1; simp
+  · by_cases h2 : i ≤ k
+    · have h3 : i + 1 ≤ k := by omega
+      obtain ⟨d, hd⟩ : ∃ d, k - i = d + 1 := ⟨k - i - 1, by omega⟩
+      have hd' : k - (i + 1) = d := by omega
+      simp [h1, h2, h3, hd, hd']
+    · have h3 : ¬ i + 1 ≤ k := by omega
+      simp [h1, h2, h3]
+
+/-- **every component's density is multiplied by ITS factor exactly once, whatever cells the components
+share**: `changeNDensByFactor` builds a new composition for the component it is called on and leaves the
+shared one alone, so a component that shares its composition with an earlier one is not scaled twice. -/
+theorem changeAll_spec : ∀ (fs : List Rat) (heap : Heap) (cells : List Nat) (i : Nat),
+    (∀ c ∈ cells, c < heap.length) →
+    (changeAll heap cells i fs).2.length = cells.length ∧
+    (∀ c ∈ (changeAll heap cells i fs).2, c < (changeAll heap cells i fs).1.length) ∧
+    ∀ k, k < cells.length →
+      deref (changeAll heap cells i fs).1 ((changeAll heap cells i fs).2.getD k 0)
+        = deref heap (cells.getD k 0) * factorAt i fs k
+  | [], heap, cells, i, inv => by
+    refine ⟨rfl, inv, ?_⟩
+    intro k _
+    simp [changeAll, factorAt]
+  | f :: fs, heap, cells, i, inv => by
+    have inv' : ∀ c ∈ cells.set i heap.length, c < (heap ++ [deref heap (cells.getD i 0) * f]).length := by
+      intro c hc
+      rcases List.mem_or_eq_of_mem_set hc with h | h
+      · have := inv c h; simp; omega
+      · simp [h]
+    obtain ⟨ih1, ih2, ih3⟩ := changeAll_spec fs (heap ++ [deref heap (cells.getD i 0) * f]) (cells.set i heap.length) (i + 1) inv'
+    have hstep : changeAll heap cells i (f :: fs)
+        = changeAll (heap ++ [deref heap (cells.getD i 0) * f]) (cells.set i heap.length) (i + 1) fs := rfl
+    rw [hstep]
+    refine ⟨by rw [ih1, List.length_set], ih2, ?_⟩
+    intro k hk
+    rw [ih3 k (by rw [List.length_set]; exact hk), factorAt_cons, ← mul_assoc]
+    congr 1
+    by_cases hki : k = i
+    · subst hki
+      have : (cells.set k heap.length).getD k 0 = heap.length := by
+        simp [List.getD_eq_getElem?_getD, List.getElem?_set_self hk]
+      rw [this, deref_append_eq]; simp
+    · have hne : i ≠ k := fun h => hki h.symm
+      have : (cells.set i heap.length).getD k 0 = cells.getD k 0 := by
+        simp [List.getD_eq_getElem?_getD, List.getElem?_set_ne hne]
+      have hlt : cells.getD k 0 < heap.length := by
+        apply inv
+        simp [List.getD_eq_getElem?_getD, List.getElem?_eq_getElem hk]
+      rw [this, deref_append_lt _ _ _ hlt]; simp [hki]
+
+/-- ... in the form the property needs: after the density updates of one expansion, component `k` sees its old
+density times its own factor (`1/g`), for ANY sharing pattern -/
+theorem densitiesAfter_spec (heap : Heap) (cells : List Nat) (fs : List Rat) (inv : ∀ c ∈ cells, c < heap.length)
+    (k : Nat) (hk : k < cells.length) :
+    (densitiesAfter heap cells fs).getD k 0 = deref heap (cells.getD k 0) * fs.getD k 1 := by
+  obtain ⟨h1, _, h3⟩ := changeAll_spec fs heap cells 0 inv
+  have hk' : k < (changeAll heap cells 0 fs).2.length := by rw [h1]; exact hk
+  have := h3 k hk
+  simp only [factorAt, Nat.zero_le, if_true, Nat.sub_zero] at this
+  rw [← this]
+  simp [densitiesAfter, List.getD_eq_getElem?_getD, List.getElem?_map, List.getElem?_eq_getElem hk']
+
+/-- two components sharing one cell, both grown by 2: each sees a half, not a quarter -/
+example : densitiesAfter [8] [0, 0] [1/2, 1/2] = [4, 4] := by decide +kernel
+
 end ArmiVerif.AxialExp
